@@ -8,11 +8,12 @@ LEVEL_TEXT = ("Theorems (Lean 4, any linearly ordered field) about the construct
               "returns a ValueError-class error (constant / tabulated efficiency out of (0,1], regulator dropout >= |vo|, zero load "
               "resistance, table without vi/io/value key, io axis not strictly increasing, shape mismatch, negative tabulated ground "
               "current, malformed limits for all 11 kinds, non-numeric rs lists); every accepted component is physical (Spec/Phys); "
-              "negating any magnitude-type numeric argument leaves the constructed component unchanged. PARTIAL: the 'accepted => "
-              "physical' theorem excludes a negative scalar rs on PMux / Rectifier — the full statement is proved FALSE on the witnesses "
-              "PMux(rs=-1), Rectifier(rs=-1) (findings F08, F12) — and 2-D tables outside C10's conditioning; sign insensitivity of the "
-              "ground current ig holds up to the displayed _params entry (stored as given), and fails for the scalar rs of PMux / Rectifier "
-              "(same findings). The model is tied to the constructors on every run (accept / reject + exception class, stored _params, "
+              "negating any magnitude-type numeric argument (the scalar rs of PMux / Rectifier included) leaves the constructed component "
+              "unchanged. 'accepted => physical' is proved at full strength (all kinds, 1-D / 2-D tables in any row order, no side "
+              "condition) for the code as repaired by /repo 2b347cd, b1d6b51, b59f1ff, 7008460 (former findings F08, F12, F11, "
+              "F28-C11-IQKEY, kept as regression cases). PARTIAL by nature: sign insensitivity of the ground current ig holds up to the "
+              "displayed _params entry (stored as given; ig_display_differs shows plain equality is false). "
+              "The model is tied to the constructors on every run (accept / reject + exception class, stored _params, "
               "limits, and the solved probe Source -> component -> ILoad certified against the model's laws).")
 LEVEL_NOTE = "consequence clause (Loss >= 0, Efficiency <= 100, passive |Vout| <= |Vin|) is checked on light-load probe systems; overload without polarity guard (F02-F05) belongs to C03"
 MODULE = "SysLoss.Props.C11"
@@ -24,9 +25,8 @@ THEOREMS = ["SysLoss.C11." + t for t in (
     "reject_table_rectifier_ig", "reject_limits_source", "reject_limits_pload", "reject_limits_iload",
     "reject_limits_rload", "reject_limits_rloss", "reject_limits_vloss", "reject_limits_converter",
     "reject_limits_linreg", "reject_limits_pswitch", "reject_limits_pmux", "reject_limits_rectifier_diode",
-    "reject_limits_rectifier_mosfet", "accepted_normalised_partial", "accepted_normalised_full_fails",
-    "accepted_normalised_full_fails_rectifier", "sign_insensitive", "sign_insensitive_ig_partial",
-    "sign_insensitive_rs_fails")]
+    "reject_limits_rectifier_mosfet", "reject_table_linreg_iq_nokey", "accepted_normalised", "sign_insensitive",
+    "sign_insensitive_ig_partial", "ig_display_differs")]
 RULE = ("type-directed constructor calls for all 11 kinds: 70% valid (random sign on every magnitude-type argument, int/float/bool "
         "forms, scalar / list / 1-D / 2-D table forms, optional limits), 30% malformed: one rejection cause of the property injected "
         "(two thirds) or one type confusion (string / None / list / number where another type is expected, degenerate table shapes); "
@@ -231,15 +231,28 @@ def one_call(ctx, kind, a, tag, want_probe=True):
             accepted_checks(ctx, kind, a, case)
 
 
-WITNESSES = [("pmux", {"rs": -1.0}), ("rectifier", {"rs": -1.0}), ("rectifier", {"rs": [0.1, 0.2]}),
-             ("linreg", {"vo": 3.3, "iq": {"vi": [5.0], "io": [0.0, 0.1], "ig": [[1e-3, 2e-3]]}})]
+# regression cases of the former findings F08, F12, F28-C11-IQKEY, F11 (all fixed in /repo) and the F13 observation;
+# corpus/C11/*.json holds the same cases as files
+WITNESSES = [("pmux", {"rs": -1.0}, "valid"), ("rectifier", {"rs": -1.0}, "valid"), ("rectifier", {"rs": [0.1, 0.2]}, "valid"),
+             ("linreg", {"vo": 3.3, "iq": {"vi": [5.0], "io": [0.0, 0.1], "ig": [[1e-3, 2e-3]]}}, "valid"),
+             ("linreg", {"vo": 3.3, "iq": {"vi": [5.0], "io": [0.0, 0.1]}}, "table_missing_key"),
+             ("vloss", {"vdrop": {"vi": [5.0], "io": [-2.0, -1.0], "vdrop": [[0.1, 0.2]]}}, "io_not_increasing")]
+
+
+def corpus_cases():
+    import glob, json, os
+    out = []
+    for f in sorted(glob.glob(os.path.join(wire.VERIF, "corpus", "C11", "*.json"))):
+        c = json.load(open(f))["case"]
+        out.append((c["kind"], c["args"], c.get("tag", "valid")))
+    return out
 
 
 def run(ctx):
     n = ctx.n(4000, 60000)
     nprobe = ctx.n(1200, 20000)
-    for kind, a in WITNESSES:
-        one_call(ctx, kind, copy.deepcopy(a), "valid" if kind != "linreg" else "table_missing_key")
+    for kind, a, tag in WITNESSES + corpus_cases():
+        one_call(ctx, kind, copy.deepcopy(a), tag)
     done = 0
     for k in range(n):
         kind = ctx.rng.choice(ctorgen.KINDS)
